@@ -25,6 +25,10 @@ import OpcuaModel.Model.ChunkRef
         → ok <len> <sizefield> | err | panic      (`signAndEncrypt`, asymmetric, length-preserving dummy primitives)
     asymtail <mode> <sig> <rsl> <hl> <header ‖ decrypted plaintext>
         → ok <hex> | err | panic                  (`verifyTail`, asymmetric, signature verdict = valid)
+    session <policy> <mode> <cs> <seq> <chan> <tok> <localNonce> <remoteNonce> <req>:<body> …
+        → ok <seq'> <n> <len>.<flag>.<sizefield>.<sha256> … | err | panic   (`sendSession`: several messages, one instance)
+    recvmany <policy> <mode> <maxChunkCount> <maxMessageSize> <localNonce> <remoteNonce> <wirechunk> …
+        → <k> <req>.<chan>.<len>.<sha256>|err|panic …                       (`receiveMany`, empty table)
     recv <policy> <mode> <maxChunkCount> <maxMessageSize> <localNonce> <remoteNonce> <wirechunk> …
         → ok <req> <chan> <len> <sha256 of body> <leftover> | continue | err | panic   (`receiveAll`, empty table)
 -/
@@ -67,7 +71,7 @@ def asymSide (mode : Mode) (sig rsl pbs bs : Nat) : Side :=
 
 def handle : List String → String
   | ["selftest"] =>
-    match CryptoRef.selfTestFailures with
+    match CryptoRef.selfTestFailures ++ (if cbcCrossCheck then [] else ["cbc-list-vs-bytearray"]) with
     | [] => "ok"
     | l => " ".intercalate l
   | ["maxbody", p, cs] =>
@@ -130,6 +134,32 @@ def handle : List String → String
     | some mode, some sig, some rsl, some hl, some data =>
       resStr (verifyTail (asymSide mode sig rsl 1 1) true hl data) fun d => s!"ok {toHex d}"
     | _, _, _, _, _ => "bad-op"
+  | "session" :: p :: m :: cs :: seq :: chan :: tok :: ln :: rn :: msgs =>
+    match modeOf m, cs.toInt?, seq.toInt?, chan.toNat?, tok.toNat?, unhexFast ln, unhexFast rn with
+    | some mode, some cs, some seq, some chan, some tok, some ln, some rn =>
+      let parsed : Option (List (Nat × Bytes)) := msgs.mapM fun t =>
+        match t.splitOn ":" with
+        | [r, b] => do
+          let rr ← r.toNat?
+          let bb ← unhexFast b
+          pure (rr, bb)
+        | _ => none
+      match mkSide p mode ln rn, parsed with
+      | some s, some ms =>
+        let r := sendSession s (maxBodyOf s.algo cs) chan tok seq ms
+        resStr r.2 fun ws => s!"ok {r.1} {ws.length} " ++ " ".intercalate (ws.map chunkDigest)
+      | _, _ => "bad-op"
+    | _, _, _, _, _, _, _ => "bad-op"
+  | "recvmany" :: p :: m :: mcc :: mms :: ln :: rn :: chunks =>
+    match modeOf m, mcc.toNat?, mms.toNat?, unhexFast ln, unhexFast rn, parseChunks chunks with
+    | some mode, some mcc, some mms, some ln, some rn, some ws =>
+      match mkSide p mode ln rn with
+      | some s =>
+        let rs := receiveMany (fun _ => [s]) ⟨mcc, mms⟩ ws.length (fun _ => []) ws
+        s!"{rs.length} " ++ " ".intercalate (rs.map fun r =>
+          resStr r fun o => s!"{o.requestID}.{o.channelID}.{o.body.length}.{sha256Hex o.body}")
+      | none => "bad-op"
+    | _, _, _, _, _, _ => "bad-op"
   | "recv" :: p :: m :: mcc :: mms :: ln :: rn :: chunks =>
     match modeOf m, mcc.toNat?, mms.toNat?, unhexFast ln, unhexFast rn, parseChunks chunks with
     | some mode, some mcc, some mms, some ln, some rn, some ws =>
